@@ -291,7 +291,10 @@ func h02Diff(which int, n int, name string) {
 	}
 }
 
-func H02_sgr()   { h02Diff(0, vsymParam("n", 9), "parseSgrMouse") }
-func H02_x11()   { h02Diff(1, vsymParam("n", 7), "parseXtermMouse") }
-func H02_focus() { h02Diff(2, vsymParam("n", 4), "parseFocus") }
-func H02_clip()  { h02Diff(3, vsymParam("n", 11), "parseClipboard") }
+// every length 1..n: short buffers exercise the parsers' "proper prefix => partial" answers
+func h02Len(n int) int { return 1 + vsymChoice("len", n) }
+
+func H02_sgr()   { h02Diff(0, h02Len(vsymParam("n", 9)), "parseSgrMouse") }
+func H02_x11()   { h02Diff(1, h02Len(vsymParam("n", 7)), "parseXtermMouse") }
+func H02_focus() { h02Diff(2, h02Len(vsymParam("n", 4)), "parseFocus") }
+func H02_clip()  { h02Diff(3, h02Len(vsymParam("n", 11)), "parseClipboard") }
